@@ -571,12 +571,54 @@ func ruleRegexpQuoting(c *Ctx, rule string) {
 			if len(alts) > 0 {
 				c.R.Add(rule, c.fk(f), "regexp-source/rule-enclosed-in-group", c.pos(in), len(ungrouped) == 0, ifelse(len(ungrouped) == 0, fmt.Sprintf("%d construction alternative(s), all of the form (?:RULE)SUFFIX or (?P<NAME>RULE)SUFFIX", len(alts)), "the expression can be built as "+strings.Join(ungrouped, " / ")+": the user's rule is not enclosed in a group of its own, so an alternation in the rule captures the literal suffix into its last branch (other branches no longer require the suffix)"))
 			}
+			// a regexp parameter without literal text after it ends its pattern (two parameters cannot be adjacent): it
+			// takes the whole rest, so its expression is anchored at the end — otherwise the engine's preferred match
+			// ("zh" for zh|zh-CN, one digit for \d+?) leaves text over and the route is a 404 for text its rule accepts
+			if len(alts) > 0 && strings.HasPrefix(an.FuncKey(f), "syntax.") {
+				anchored := false
+				for _, a := range alts {
+					if strings.HasSuffix(a, `\z`) || strings.HasSuffix(a, "$") {
+						anchored = true
+					}
+				}
+				guarded := false
+				an.AllInstrs(f, func(t ssa.Instruction) {
+					ph, isPhi := t.(*ssa.Phi)
+					if !isPhi {
+						return
+					}
+					for i, e := range ph.Edges {
+						k, isS := strConst(e)
+						if !isS || (k != `\z` && k != "$") {
+							continue
+						}
+						pred := ph.Block().Preds[i]
+						if len(pred.Instrs) == 0 {
+							continue
+						}
+						if an.DominatedByEdge(pred.Instrs[len(pred.Instrs)-1], func(b *ssa.BasicBlock, succ int) bool {
+							return edgeHas(b, succ, func(cond ssa.Value, truth bool) bool {
+								x, kc, eq, ok := an.CondAtom(cond)
+								if !ok || !strings.HasSuffix(an.AP(x), ".Suffix") {
+									return false
+								}
+								sk, isStr := strConst(kc)
+								return isStr && sk == "" && eq == truth
+							})
+						}) {
+							guarded = true
+						}
+					}
+				})
+				good := anchored && guarded
+				c.R.Add(rule, c.fk(f), "regexp-source/no-suffix⇒anchored-at-the-end", c.pos(in), good, ifelse(good, "without a literal suffix the expression ends with an end anchor", "a regexp parameter that ends its pattern (no literal suffix) is compiled without an end anchor: the engine's preferred match can be a proper prefix of the rest (\"zh\" for the rule zh|zh-CN, one digit for \\d+?), the left-over text fails the route and the request is a 404 although the rule accepts the whole rest"))
+			}
 			c.R.Add(rule, c.fk(f), "regexp-source/literal-text-quoted", c.pos(in), len(bad) == 0, ifelse(len(bad) == 0, "every non-constant part is the user's rule, the parameter name, or quoted text: "+t.String(), "pattern text "+strings.Join(bad, ", ")+" is spliced into a regular expression unquoted: its metacharacters ('.', '+', …) match other bytes than themselves"))
 		})
 	}
 }
 
-var regexpShape = regexp.MustCompile("^\\(\\?(:|P<\x00N>)\x00R\\)(\x00Q)?$")
+var regexpShape = regexp.MustCompile("^\\(\\?(:|P<\x00N>)\x00R\\)(\x00Q|\\\\z|\\$)?$")
 
 // regexpAlternatives expands the construction of a regexp source into its
 // alternatives (phi edges), with placeholders for the rule, the name, quoted text and anything else.
